@@ -578,7 +578,8 @@ func Run(o *hx.Out, g *hx.Rng, tier string) {
 	results := make([]*caseRun, len(specs))
 	var tms [][]tmLine
 	done := make(chan struct{})
-	var progress atomic.Int64
+	var progress, failed atomic.Int64
+	const maxFailed = 3 // every case with a missing task costs the 2 s quiescence wait: stop early
 	go func() {
 		defer close(done)
 		var wg sync.WaitGroup
@@ -589,7 +590,12 @@ func Run(o *hx.Out, g *hx.Rng, tier string) {
 				go func() {
 					defer wg.Done()
 					sem <- struct{}{}
-					results[i] = runCase(sp)
+					if failed.Load() < maxFailed {
+						results[i] = runCase(sp)
+						if results[i].timeout {
+							failed.Add(1)
+						}
+					}
 					<-sem
 					progress.Add(1)
 				}()
@@ -603,8 +609,11 @@ func Run(o *hx.Out, g *hx.Rng, tier string) {
 			}
 		}()
 		for i, sp := range specs {
-			if !sp.background {
+			if !sp.background && failed.Load() < maxFailed {
 				results[i] = runCase(sp)
+				if results[i].timeout {
+					failed.Add(1)
+				}
 				progress.Add(1)
 			}
 		}
@@ -619,6 +628,10 @@ func Run(o *hx.Out, g *hx.Rng, tier string) {
 			progress.Load(), len(specs), budget, mode), Replay: []string{fmt.Sprintf("corr -comp sched -seed %d -tier %s (GODEBUG=%q)", seed, tier, gd)}})
 		o.Count("watchdog")
 		return
+	}
+	if failed.Load() >= maxFailed {
+		o.Note(fmt.Sprintf("stopped after %d cases with unexecuted tasks; the remaining cases were not run", failed.Load()))
+		o.Count("aborted-early")
 	}
 	for _, c := range results {
 		if c != nil {
